@@ -79,6 +79,8 @@ def cases(tier):
         for regime in ('memory', 'file'):
             for units in FILE_UNITS:
                 out.append({'part': 'file', 'spec': spec, 'regime': regime, 'units': units})
+            for units in (FILE_UNITS[0], FILE_UNITS[1]):
+                out.append({'part': 'file', 'spec': spec, 'regime': regime, 'units': units, 'time_dtype': 'int32'})
     return out
 
 
@@ -173,7 +175,8 @@ def run_file(case, rec):
     with env.scratch_dir() as tmp:
         ds, truth = builders.build(spec)
         ds[truth.time_name].encoding['units'] = case['units']
-        ds[truth.time_name].encoding['dtype'] = np.dtype('float64')
+        # 'int32': six-hourly data requested as whole days etc.: xarray re-expresses the units when writing
+        ds[truth.time_name].encoding['dtype'] = np.dtype(case.get('time_dtype', 'float64'))
         if case['regime'] == 'file':
             ds = builders.reopen(ds, tmp, 'source.nc')
         want_fill = fill_expectation(ds)
